@@ -249,6 +249,9 @@ func (s *Session) readHandshake(msg Message) error {
 		s.msgCache[2] = res.InitDone
 		s.cipherOut, s.cipherIn = res.CipherOut, res.CipherIn
 		s.remoteKey = res.RemoteKey
+		// The initiator can be completed by data instead of the RespDone, so the counter has to
+		// leave the range reserved for handshake messages here.
+		s.nonce = noncePostHandshake
 		s.hsIndex = 2 // the initiator doesn't know if the server got the initDone yet.
 	case !s.isInit && s.hsIndex == 1 && nonce == nonceInitDone:
 		res, err := readInitDone(s.hs, &s.remoteKey, s.cipherIn, s.cipherOut, msg)
